@@ -24,7 +24,7 @@ SPLIT_RE = re.compile(r'_\((\d+)/(\d+)\)$')
 # generator
 # ---------------------------------------------------------------------------------------------------------------------
 
-def gen_fiber(rng, uid, widen=False, max_km=None):
+def gen_fiber(rng, uid, widen=False, max_km=None, lumped=False):
     if rng.random() < (0.75 if not widen else 0.9):
         L = rng.choice(LENGTHS_KM if not widen else [149.0, 149.999, 150.0, 150.001, 151.0, 100.0, 120.0, 180.0, 90.0,
                                                      299.999, 300.0, 450.0])
@@ -37,6 +37,24 @@ def gen_fiber(rng, uid, widen=False, max_km=None):
     r = rng.random()
     if r < 0.12:
         p["att_in"] = rng.choice([0, 1.5, 3.0, 0.7])
+    if lumped and L >= 100.0 and rng.random() < 0.5:
+        # a long fibre (it will be split when L >= max_length) with a user att_in and 0-3 lumped losses anywhere strictly
+        # inside: several in one sub-span, in the last one, next to a sub-span boundary
+        p["att_in"] = rng.choice([2.0, 1.0, 0.5, 3.0])
+        k = rng.choice([0, 1, 2, 3])
+        pos = []
+        for _ in range(k):
+            c = rng.random()
+            if c < 0.5:
+                x = round(rng.uniform(0.001, L - 0.001), rng.choice([0, 1, 3]))
+            elif c < 0.75:
+                x = round(L - rng.choice([0.5, 3.0, 20.0, 40.0]), 3)           # in the last sub-span
+            else:
+                x = round(rng.choice([1, 2, 3]) * L / rng.choice([2, 3, 4]) + rng.choice([-0.25, 0.25, 1.0]), 3)
+            if 0 < x < L and all(abs(x - y) > 1e-6 for y in pos):
+                pos.append(x)
+        if pos:
+            p["lumped_losses"] = [{"position": x, "loss": rng.choice([0.5, 1.0, 0.3, 2.0])} for x in sorted(pos)]
     return {"uid": uid, "type": "Fiber", "type_variety": rng.choice(['SSMF', 'SSMF', 'NZDF']), "params": p}
 
 
@@ -85,7 +103,7 @@ def gen_edfa(rng, uid, force_dp=False):
     return d
 
 
-def gen_line(rng, tag, tier, widen=False, raman=False, src_is_trx=False, allow_raman_crash=False):
+def gen_line(rng, tag, tier, widen=False, raman=False, src_is_trx=False, allow_raman_crash=False, lumped=False):
     """1-8 line elements; `raman` puts one RamanFiber in a position the design supports (after a transceiver, after
     ROADM+Fused, or after an amplifier with user delta_p); `allow_raman_crash` puts it after an auto amplifier."""
     n = rng.choice([1, 1, 2, 2, 3, 3, 4, 5, 6, 8])
@@ -109,6 +127,22 @@ def gen_line(rng, tag, tier, widen=False, raman=False, src_is_trx=False, allow_r
         line.append(gen_fiber(rng, f'{tag} f0', widen, max_km=120.0))
         line.append(gen_raman(rng, f'{tag} r'))
         n = rng.choice([0, 1])
+    if not raman and not allow_raman_crash and rng.random() < 0.15:
+        # a short amplifier-to-amplifier span made of 2-3 fibres spliced by Fused, total loss below the usual paddings,
+        # with a user att_in on the first fibre that differs from the last fibre's (first > 0 / last 0 and the reverse)
+        a_first, a_last = rng.choice([(1.5, 0), (0.5, 0), (1.0, 2.0), (2.0, 0.5), (0, 1.0), (0.7, 0)])
+        nf = rng.choice([2, 2, 3])
+        for j in range(nf):
+            f = {"uid": f'{tag} s{j}', "type": "Fiber", "type_variety": "SSMF",
+                 "params": {"length": rng.choice([1.0, 2.0, 3.0, 5.0]), "length_units": "km", "loss_coef": 0.2,
+                            "con_in": rng.choice([None, 0, 0.2]), "con_out": rng.choice([None, 0, 0.2])}}
+            att = a_first if j == 0 else (a_last if j == nf - 1 else rng.choice([0, 0.3]))
+            if att:
+                f["params"]["att_in"] = att
+            line.append(f)
+            if j < nf - 1:
+                line.append({"uid": f'{tag} su{j}', "type": "Fused", "params": {"loss": rng.choice([0, 0.3, 0.5])}})
+        n = rng.choice([0, 1, 2, 3])
     prev = line[-1]['type'] if line else None
     # a Fiber spliced (through Fused) to a RamanFiber makes add_fiber_padding ask for the Raman gain before it is
     # estimated (TypeError, finding raman-gain-before-estimate): only the dedicated crash cases produce that
@@ -121,11 +155,13 @@ def gen_line(rng, tag, tier, widen=False, raman=False, src_is_trx=False, allow_r
             w['Fiber'] = 1          # Raman -> Fiber gets an inline amplifier: fine, but keep it rare
         if raman_run and prev == 'Fused':
             w['Fiber'] = 0
+        if i == 0 and line and line[-1]['uid'].startswith(f'{tag} s'):
+            w['Fused'] = 0          # keep the spliced span closed by an amplifier
         kinds = list(w)
         typ = rng.choices(kinds, [w[k] for k in kinds])[0]
         uid = f'{tag} {i}'
         if typ == 'Fiber':
-            el = gen_fiber(rng, uid, widen)
+            el = gen_fiber(rng, uid, widen, lumped=lumped)
         elif typ == 'Fused':
             el = gen_fused(rng, uid)
         else:
@@ -174,7 +210,8 @@ def gen_roadm_params(rng):
     return p
 
 
-def gen_case(rng, tier, widen=False, raman_rate=0.08, raman_crash_rate=0.01, trx_src_rate=0.12, eol_zero=False):
+def gen_case(rng, tier, widen=False, raman_rate=0.08, raman_crash_rate=0.01, trx_src_rate=0.12, eol_zero=False,
+             lumped=False):
     k = rng.choice([1, 1, 1, 2, 2, 3, 4, 5]) if tier == 'thorough' else rng.choice([1, 1, 1, 1, 2, 2, 3, 5])
     span = gen_span(rng, widen)
     if eol_zero:
@@ -187,7 +224,8 @@ def gen_case(rng, tier, widen=False, raman_rate=0.08, raman_crash_rate=0.01, trx
             use_raman = raman and i == 1 and s == 0
             use_crash = crash and i == 1 and s == 0
             chains.append({'src': f'R{s}', 'dst': f'R{d}',
-                           'line': gen_line(rng, f'e{s}{d}', tier, widen, raman=use_raman, allow_raman_crash=use_crash)})
+                           'line': gen_line(rng, f'e{s}{d}', tier, widen, raman=use_raman, allow_raman_crash=use_crash,
+                                            lumped=lumped)})
     trx_src = None
     if rng.random() < trx_src_rate:
         use_raman = rng.random() < 0.5
@@ -294,10 +332,11 @@ def record(node):
     k = kind_of(node)
     if k in ('fiber', 'raman'):
         p = node.params
-        lumped = float(sum(lin2db(1 / node.lumped_losses))) if len(node.lumped_losses) else 0.0
+        lumps = [[float(x['position']), float(x['loss'])] for x in p.lumped_losses]
+        lumped = float(sum(x[1] for x in lumps))
         return {'kind': k, 'uid': node.uid, 'length': float(p.length),
                 'loss_coef': float(node.loss_coef_func(p.ref_frequency)),
-                'con_in': fnum(p.con_in), 'con_out': fnum(p.con_out), 'att_in': float(p.att_in), 'lumped': lumped,
+                'con_in': fnum(p.con_in), 'con_out': fnum(p.con_out), 'att_in': float(p.att_in), 'lumped': lumped, 'lumps': lumps,
                 'raman_gain': fnum(getattr(node, 'estimated_gain', None)),
                 'dsl': fnum(getattr(node, 'design_span_loss', None)), 'type_variety': node.type_variety}
     if k == 'fused':
@@ -378,7 +417,7 @@ def elem_model(rec):
     if k in ('fiber', 'raman'):
         return {'kind': 'fiber', 'uid': rec['uid'], 'length': f2b(rec['length']), 'loss_coef': f2b(rec['loss_coef']),
                 'con_in': ob(rec['con_in']), 'con_out': ob(rec['con_out']), 'att_in': f2b(rec['att_in']),
-                'lumped': f2b(rec['lumped']), 'raman': k == 'raman', 'raman_gain': ob(rec.get('raman_gain')),
+                'lumps': [[f2b(a), f2b(b)] for a, b in rec.get('lumps', [])], 'raman': k == 'raman', 'raman_gain': ob(rec.get('raman_gain')),
                 'dsl': ob(rec.get('dsl'))}
     if k == 'fused':
         return {'kind': 'fused', 'uid': rec['uid'], 'loss': f2b(rec['loss'])}
@@ -441,11 +480,16 @@ def shrink_candidates(case):
                 c = copy.deepcopy(case)
                 all_chains(c)[ci]['line'][ei] = {'uid': e['uid'], 'type': 'Edfa'}
                 yield c
+            if e['type'] == 'Fiber' and e['params'].get('lumped_losses'):
+                c = copy.deepcopy(case)
+                all_chains(c)[ci]['line'][ei]['params'].pop('lumped_losses')
+                yield c
             if e['type'] == 'Fiber' and e['params']['length'] not in (80.0,):
                 for L in (80.0, 10.0, 200.0):
                     if L != e['params']['length']:
                         c = copy.deepcopy(case)
                         all_chains(c)[ci]['line'][ei]['params']['length'] = L
+                        all_chains(c)[ci]['line'][ei]['params'].pop('lumped_losses', None)
                         yield c
     if case.get('edfa_mod'):
         c = copy.deepcopy(case)
